@@ -28,6 +28,16 @@ Second extension (GAPS-C16.md, "Second pass"):
 * generator: empty decoy prefix (`C16_empty_prefix_rejected`), names that differ from the prefix in case
   only / equal the prefix, several digest options at once, `min_length = 0`; `Proteins.decoy_prefix`;
   the caller's `proteins` dict is not modified by `_group_proteins`.
+
+Third extension (GAPS-C16.md, "Third pass"):
+* `grouptext` — the model of read_fasta run from the raw CONTENTS of the files (reader, Lean digest, grouping, strings):
+  compared verbatim, `protein_map` as an item list (key order, also `gpmorder`); files with LF / CRLF / CR line ends,
+  blank lines, descriptions with `>`; `eval_text_corners`: files outside the FASTA description (correspondence only).
+* `eval_callseq` — sequences of calls in ONE process that differ in a single digest option, in both orders, with
+  `mokapot.digest` calls in between; every result judged against the Lean digest + model, failures confirmed in a fresh
+  interpreter (`call-sequence:result-depends-on-earlier-calls`).
+* entry point `PsmDataset.add_proteins(fasta, **kwargs)`; a repeated identifier with different sequences is tallied as
+  outside the quantifier.
 """
 from __future__ import annotations
 
@@ -244,18 +254,26 @@ def gen_case(rng, big=False, allow_dups=False, repeat=False):
             e = rng.choice(entries)
             entries.insert(rng.randrange(len(entries) + 1), list(e))
     fmt = dict(wrap=rng.choice([0, 0, 60, 7, 1]), desc=rng.random() < 0.4, nfiles=rng.choice([1, 1, 1, 2, 3]),
-               trail=rng.random() < 0.7)
-    # forms of the call: how the enzyme, the file(s) and the keywords are handed over
+               trail=rng.random() < 0.7,
+               # third pass: newline convention of the stored files, blank lines inside / between records,
+               # descriptions that contain `>` and blanks
+               eol=rng.choice(["lf", "lf", "lf", "crlf", "cr"]), blank=rng.random() < 0.2,
+               blank_seed=rng.randrange(1 << 30))
+    # forms of the call: how the enzyme, the file(s) and the keywords are handed over; `via`: the public
+    # function itself or the documented second entry point `PsmDataset.add_proteins(fasta, **kwargs)`
     call = dict(enz=rng.choice(["str", "str", "compiled"]),
                 files=rng.choice(["str", "str", "path", "list", "tuple"]) if fmt["nfiles"] == 1
                 else rng.choice(["list", "tuple"]),
-                omit=rng.random() < 0.5)
+                omit=rng.random() < 0.5,
+                via="add_proteins" if rng.random() < 0.12 else "read_fasta")
     return dict(entries=entries, prefix=prefix, digest=digest, fmt=fmt, pat=pat, dmode=dmode, dg=dg, nstyle=nstyle,
                 call=call, pepstyle=pepstyle)
 
 
 def fasta_texts(case, entries):
     """FASTA text(s) of `entries` in the formatting of the case (contiguous split into files)"""
+    if case.get("texts") is not None:  # file contents given verbatim (reader corner cases)
+        return list(case["texts"])
     fmt = case["fmt"]
     nf = max(1, min(fmt["nfiles"], len(entries)))
     k, r = divmod(len(entries), nf)
@@ -265,19 +283,30 @@ def fasta_texts(case, entries):
         chunks.append(entries[pos:pos + size])
         pos += size
     texts = []
+    import random as _random
+
+    brng = _random.Random(fmt.get("blank_seed", 0))
     for ch in chunks:
         lines = []
         for idx, (nm, seq) in enumerate(ch):
-            lines.append(">" + nm + (f" some description {idx} OS=Homo" if fmt["desc"] else ""))
+            desc = ""
+            if fmt["desc"]:
+                desc = f" some description {idx} OS=Homo" if not fmt.get("blank") else f" a > b  {idx}\tOS=Homo "
+            lines.append(">" + nm + desc)
             w = fmt["wrap"]
+            body = []
             if seq and w:
-                lines += [seq[i:i + w] for i in range(0, len(seq), w)]
+                body = [seq[i:i + w] for i in range(0, len(seq), w)]
             elif seq:
-                lines.append(seq)
+                body = [seq]
+            if fmt.get("blank"):  # empty lines after the header, inside the sequence, before the next record
+                for _ in range(brng.choice([0, 1, 1, 2])):
+                    body.insert(brng.randrange(len(body) + 1), "")
+            lines += body
         txt = "\n".join(lines)
         if fmt["trail"]:
-            txt += "\n"
-        texts.append(txt)
+            txt += "\n" * (brng.choice([1, 2, 3]) if fmt.get("blank") else 1)
+        texts.append(txt.replace("\n", {"lf": "\n", "crlf": "\r\n", "cr": "\r"}[fmt.get("eol", "lf")]))
     return texts
 
 
@@ -298,7 +327,7 @@ def impl_read(case, entries, tag="a"):
     paths = []
     for i, t in enumerate(fasta_texts(case, entries)):
         p = os.path.join(d, f"{tag}{i}.fasta")
-        with open(p, "w") as fh:
+        with open(p, "w", newline="") as fh:  # the line ends of the case, untranslated
             fh.write(t)
         paths.append(p)
     call = case.get("call") or dict(enz="str", files="str" if len(paths) == 1 else "list", omit=False)
@@ -314,7 +343,18 @@ def impl_read(case, entries, tag="a"):
 
         kw["enzyme"] = re.compile(kw["enzyme"])
     try:
-        pr = mokapot.read_fasta(arg, **kw)
+        if call.get("via") == "add_proteins":
+            # mokapot/dataset.py:176-197: a FASTA file name and keyword arguments are handed to read_fasta and
+            # the result stored; the method touches nothing else of the dataset, so a bare holder object does
+            import types
+
+            from mokapot.dataset import PsmDataset
+
+            holder = types.SimpleNamespace()
+            PsmDataset.add_proteins(holder, arg, **kw)
+            pr = holder._proteins
+        else:
+            pr = mokapot.read_fasta(arg, **kw)
     except Exception as e:  # noqa: BLE001
         return ("exc", type(e).__name__, str(e)[:200])
     return ("ok", dict(pr.peptide_map), dict(pr.shared_peptides), dict(pr.protein_map), bool(pr.has_decoys),
@@ -442,6 +482,32 @@ def parse_model(resp):
         has_decoys=a_bool(hd),
         groups={tuple(a_str(x) for x in g): frozenset(a_str(x) for x in S) for g, S in gs},
     )
+
+
+def text_request(case, entries, en=0):
+    """`grouptext`: the model of read_fasta from the *contents of the files* on (reader of C18, Lean digest of
+    C17, grouping, strings): its answer is compared verbatim with the attributes of the real result"""
+    d = case["digest"]
+    cls, nn = ENZ[d["enzyme"]]
+    return req("grouptext", case["prefix"], en, cls, nn, d["mc"], d["minl"], d["maxl"], d["clip"], d["semi"],
+               fasta_texts(case, entries))
+
+
+def parse_text(resp):
+    if resp.strip().startswith("reject-"):
+        return resp.strip()
+    v = dec(resp)
+    if not (isinstance(v, list) and len(v) == 6):
+        raise RuntimeError("driver: " + resp[:200])
+    um, sh, dm, hd, gs, es = v
+    return dict(unique={a_str(p): a_str(g) for p, g in um}, shared={a_str(p): a_str(g) for p, g in sh},
+                pmap_items=[(a_str(t), a_str(d)) for t, d in dm], has_decoys=a_bool(hd),
+                groups={a_str(g): frozenset(a_str(x) for x in S) for g, S in gs},
+                entries=[[a_str(nm), a_str(seq)] for nm, seq in es])
+
+
+def parse_pmorder(resp):
+    return [(a_str(t), a_str(d)) for t, d in dec(resp)]
 
 
 def render_request(case, pepsets, en=0):
@@ -573,17 +639,24 @@ def eval_cases(chk, cases, perms=2, light=False):
         # the strings of the code: two of three random cases (another third than above), every 4th of a sweep
         lines.append(render_request(c, ps, en=(k // 2) % 2) if (k % 4 == 1 if light else k % 3 != 0) else None)
         lines.append(req("gcons", ps) if rep_kind != "none" else None)
+        # third pass: the model from the file contents on (half of the random cases, every 4th of a sweep) and
+        # the key order of protein_map (always)
+        lines.append(text_request(c, c["entries"], en=k % 2)
+                     if c["digest"]["enzyme"] in ENZ and (k % 4 == 2 if light else k % 2 == 0) else None)
+        lines.append(req("gpmorder", c["prefix"], ps))
     resp_it = iter(common.driver_batch([ln for ln in lines if ln is not None]))
     resp = [next(resp_it) if ln is not None else None for ln in lines]
     for k, c in enumerate(cases):
         raw_pepsets, pepsets, rep_kind = metas[k]
-        r0, r1, rs, rw, rq, rr, rc = resp[offs[k]: offs[k] + 7]
+        r0, r1, rs, rw, rq, rr, rc, rt, ro = resp[offs[k]: offs[k] + 9]
         wf = a_bool(rw.strip())
         try:
             model = parse_model(r0)
             model_rev = parse_model(r1)
             mseq = parse_model(rq) if rq is not None else "skipped"
             mrend = parse_render(rr) if rr is not None else "skipped"
+            mtext = parse_text(rt) if rt is not None else "skipped"
+            mord = parse_pmorder(ro)
         except Exception as e:  # driver glue problem: framework error, surface it
             raise RuntimeError(f"cannot parse driver answer: {e}")
         if rc is not None and a_bool(rc.strip()) != (rep_kind == "identical"):
@@ -592,6 +665,7 @@ def eval_cases(chk, cases, perms=2, light=False):
             raise RuntimeError(f"repeated entries: gwf of the distinct proteins is {wf} for {rep_kind}: {raw_pepsets}")
         spec = parse_spec(rs)
         raw = impl_read(c, c["entries"])
+        compare_text(chk, c, raw, mtext, mord, note=None if wf else "duplicate names")
         nprot = sum(1 for _, p in pepsets if p)
         if not light:
             chk.count("proteins", nprot if nprot < 10 else "10+")
@@ -608,11 +682,17 @@ def eval_cases(chk, cases, perms=2, light=False):
             chk.count("decoy_prefix", "empty" if c["prefix"] == "" else "non-empty")
             chk.count("repeated_entries", rep_kind)
             chk.count("min_length", "0" if c["digest"]["minl"] == 0 else ">=1")
+            chk.count("line_ends", c["fmt"].get("eol", "lf"))
+            chk.count("blank_lines", bool(c["fmt"].get("blank")))
+            chk.count("entry_point", call.get("via", "read_fasta"))
         if mseq != "skipped":
             chk.count("seq_oracle", "wf" if wf else "dup-names")
         if not wf:
             # duplicate protein names: outside the property (dict overwrite); correspondence only
             chk.count("excluded", "duplicate-names")
+            # third pass: a repeated identifier with DIFFERENT sequences does not denote a protein/peptide
+            # incidence structure (which peptide set has the name?) — outside the quantifier; tallied as such
+            chk.reject("outside:repeated-identifier-different-sequences")
             chk.case(None, None)
             if raw[0] == "exc":
                 if model is None and raw[1] == "ValueError":
@@ -736,6 +816,78 @@ def eval_cases(chk, cases, perms=2, light=False):
                     case=c, order=order, pepsets=pepsets, impl=show(ci), impl_permuted=show(canon_impl(raw2)),
                     clause="grouping (or has_decoys) depends on the order of the FASTA entries"))
                 break
+
+
+def compare_text(chk, c, raw, mtext, mord, note=None):
+    """third pass: real result vs the model run from the file contents (verbatim Python values, `protein_map`
+    in dict order) and vs the ordered-map model run from the digested entries.  Correspondence only."""
+    if mtext != "skipped":
+        chk.count("text_model_compared")
+        if isinstance(mtext, dict) and mtext["entries"] != [list(e) for e in c["entries"]]:
+            # the Lean reader recovered other (name, sequence) pairs than the generator wrote into the files
+            chk.corr_break("grouptext-reader", dict(case=c, written=c["entries"], model_read=mtext["entries"], note=note))
+        elif raw[0] == "exc":
+            want = {"ValueError": "reject-only-decoys", "IndexError": "reject-indexerror", "KeyError": "reject-keyerror"}
+            if mtext != want.get(raw[1]):
+                chk.corr_break("grouptext", dict(case=c, impl=list(raw), model=str(mtext)[:300], note=note))
+        elif not isinstance(mtext, dict):
+            chk.corr_break("grouptext", dict(case=c, impl="ok", model=mtext, note=note))
+        elif (raw[1], raw[2], list(raw[3].items()), raw[4]) != (
+                mtext["unique"], mtext["shared"], mtext["pmap_items"], mtext["has_decoys"]):
+            chk.corr_break("grouptext", dict(
+                case=c, note=note,
+                impl=dict(peptide_map=raw[1], shared_peptides=raw[2], protein_map=list(raw[3].items()), has_decoys=raw[4]),
+                model=dict(peptide_map=mtext["unique"], shared_peptides=mtext["shared"],
+                           protein_map=mtext["pmap_items"], has_decoys=mtext["has_decoys"])))
+    if raw[0] == "ok" and list(raw[3].items()) != mord:
+        chk.corr_break("gpmorder", dict(case=c, impl=list(raw[3].items()), model=mord, note=note,
+                                        clause="key order of protein_map: ascending number of peptides, stable"))
+
+
+FRAGMENTS = [">", ">", "\n", "\n", "\r\n", "\r", " ", "A", "B", "decoy_A", "decoy_", "AAK", "CCK", "AAKCCK", "DDR", "\t",
+             "\x0c", "\x0b", "\x1c", "\u2028", "\x85", " desc", ">A\nAAK\n", ">decoy_A\nAAKCCK", "\n>B\nCCK", "k", "*"]
+TEXT_CORNERS = [
+    [""], [">"], [">\n"], ["\n>A\nAAK\n"], ["", ">A\nAAK\n"], [">A\nAAK\n", ""], [">A\nAAK", "", ">B\nCCK"],
+    ["A\nAAK\n>B\nCCK\n"], [">A\nAAK\n", "B\nCCK\n"], [">A\n>B\nCCK\n"], [">A desc\n"], ["> A\nAAK\n>B\nCCK"],
+    [">A\rAAK\r>B\rCCK\r"], [">A\r\nAAK\r\n\r\n>decoy_A\r\nAAK"], [">A\tx\nAAK\n>decoy_A\ty\nAAK\n"],
+    [">A\x0cx\nAAK\n"], [">A\nAA\x0cK\nCCK\n"], [">A\nAAK\n\n\n>B\n\nCCK\n\n"], [">A\nAAK>B\nCCK\n"],
+    [">A\nAAK\n >B\nCCK\n"], [">A\n>A\n"], [">>A\nAAK\n"], [">A  two blanks\nAAK\n>decoy_A\nAAK"],
+    [">A\naak\nAAK\n"], [">A\nAAK*\n"], [">decoy_\nAAK\n>\nAAK\n"],
+]
+
+
+def gen_text_corner(rng):
+    texts = ["".join(rng.choice(FRAGMENTS) for _ in range(rng.randint(0, 9))) for _ in range(rng.choice([1, 1, 2, 3]))]
+    if rng.random() < 0.7 and texts[0][:1] != ">":
+        texts[0] = ">" + texts[0]
+    return texts
+
+
+def eval_text_corners(chk, text_lists):
+    """file contents outside the laid-out FASTA description (no leading `>`, empty files, bare `>`, form feeds,
+    lone carriage returns, random fragments): the real read_fasta against the model run from the contents
+    (`grouptext`), verbatim.  Correspondence only — the property promises nothing about such files."""
+    logging.disable(logging.CRITICAL)
+    cases = []
+    for i, texts in enumerate(text_lists):
+        cases.append(dict(kind="textcorner", texts=texts, entries=[], prefix="decoy_" if i % 7 else "",
+                          digest=dict(enzyme="[KR]", mc=i % 2, clip=False, minl=1 if i % 3 else 3, maxl=50, semi=False),
+                          fmt=dict(wrap=0, desc=False, nfiles=len(texts), trail=False),
+                          call=dict(enz="str", files="list", omit=False)))
+    resp = common.driver_batch([text_request(c, [], en=k % 2) for k, c in enumerate(cases)])
+    for c, r in zip(cases, resp):
+        try:
+            mtext = parse_text(r)
+        except Exception as e:
+            raise RuntimeError(f"cannot parse driver answer: {e}")
+        raw = impl_read(c, [], tag="t")
+        chk.case(None, None)
+        chk.count("text_corner", "ok" if raw[0] == "ok" else raw[1])
+        if raw[0] == "exc":
+            chk.reject("corner-file:" + raw[1])
+        if isinstance(mtext, dict):
+            mtext = dict(mtext, entries=[])
+        compare_text(chk, c, raw, mtext, list(raw[3].items()) if raw[0] == "ok" else [], note="reader corner case")
 
 
 def hash_seed_runs(chk, cases, seeds):
@@ -1045,6 +1197,191 @@ DSCOPE_QUICK = [(n, m) for n in range(1, 4) for m in range(1, 4)]
 DSCOPE_THOROUGH = [(n, m) for n in range(1, 5) for m in range(1, 4)] + [(3, 4)]
 
 # ----------------------------------------------------------------------------
+# sequences of calls in ONE process (third pass): the result of a call must not depend on what was read /
+# digested before it in the same interpreter (C16_call_sequence_history_free)
+# ----------------------------------------------------------------------------
+SINGLE_OPTS = ["clip", "clip", "clip", "mc", "minl", "maxl", "semi", "enzyme"]
+CALL_PATTERNS = ["ABA", "BAB", "AB", "BA", "dB.A", "dA.B", "A.dB.A", "AAB"]
+
+
+def gen_callseq(rng):
+    """one FASTA and two digest settings A, B that differ in exactly ONE option, to be read several times in
+    this process (`pattern`: R = read_fasta, d = mokapot.digest on every sequence; both orders of A and B).
+    Sequences start with M in about half of the proteins whatever `clip` says, and the universe holds pairs
+    "M" + x / x so that clipping changes the incidence structure itself."""
+    rows, m, pat = gen_incidence(rng, big=False)
+    n = len(rows)
+    prefix = rng.choice(PREFIXES)
+    names = []
+    for i in range(n):
+        t = f"sp|R{i}|x" if rng.random() < 0.3 else f"R{i}"
+        names.append(prefix + names[rng.randrange(len(names))] if names and rng.random() < 0.3 else t)
+    seen = set()
+    for i, nm in enumerate(names):
+        while nm in seen:
+            nm += "x"
+        names[i] = nm
+        seen.add(nm)
+    body = rng.choice([3, 5, 5])
+    peps = []
+    for j in range(m):
+        if peps and not peps[-1].startswith("M") and rng.random() < 0.35:
+            peps.append("M" + peps[-1])  # clipped form of this one = the previous peptide
+        else:
+            peps.append(pep_string(j, body=body, lead_m=rng.random() < 0.4, term=rng.choice("KKR"),
+                                   lead_p=rng.random() < 0.15))
+    entries = []
+    for nm, r in zip(names, rows):
+        r = list(r)
+        rng.shuffle(r)
+        mfirst = [j for j in r if peps[j].startswith("M")]
+        if mfirst and rng.random() < 0.6:  # an M-initial peptide in front
+            j = rng.choice(mfirst)
+            r.remove(j)
+            r.insert(0, j)
+        entries.append([nm, "".join(peps[j] for j in r)])
+    opt = rng.choice(SINGLE_OPTS)
+    a = dict(enzyme=rng.choice(["[KR]", "[KR]", "K", "[KR](?!P)"]), mc=rng.choice([0, 0, 1, 2]),
+             clip=rng.random() < 0.5, minl=rng.choice([1, 2, body + 1, body + 2, 6]),
+             maxl=rng.choice([50, 50, 2 * body + 3]), semi=False)
+    if opt == "semi" or rng.random() < 0.1:
+        a["semi"] = rng.random() < 0.5
+        a["minl"] = body + 1  # keeps the peptide universe small
+        a["mc"] = min(a["mc"], 1)
+    b = dict(a)
+    if opt == "clip":
+        b["clip"] = not a["clip"]
+    elif opt == "mc":
+        b["mc"] = rng.choice([x for x in (0, 1, 2) if x != a["mc"]])
+    elif opt == "minl":
+        b["minl"] = rng.choice([x for x in (0, 1, 2, body + 1, body + 2, 6) if x != a["minl"]])
+    elif opt == "maxl":
+        b["maxl"] = rng.choice([x for x in (50, 2 * body + 3, body + 2, body + 1) if x != a["maxl"]])
+    elif opt == "semi":
+        b["semi"] = not a["semi"]
+    else:
+        b["enzyme"] = rng.choice([x for x in ENZ if x != a["enzyme"]])
+    fmt = dict(wrap=rng.choice([0, 0, 60, 7]), desc=rng.random() < 0.3, nfiles=rng.choice([1, 1, 2]),
+               trail=rng.random() < 0.7)
+    return dict(kind="callseq", entries=entries, prefix=prefix, digest=a, digest_b=b, option=opt,
+                pattern=rng.choice(CALL_PATTERNS), fmt=fmt, pat=pat,
+                forms=[dict(enz=rng.choice(["str", "compiled"]), files="list", omit=rng.random() < 0.5)
+                       for _ in range(3)])
+
+
+def callseq_calls(case):
+    """[(form, setting name)] of the pattern: "ABA" = three reads, "dB.A" = digest every sequence with B, then
+    read with A"""
+    out = []
+    for tok in case["pattern"].split(".") if "." in case["pattern"] else list(case["pattern"]):
+        out.append(("digest", tok[1]) if tok.startswith("d") else ("read", tok))
+    return out
+
+
+def impl_digest_all(case, setting):
+    """mokapot.digest on every sequence of the case (string enzyme: the documented second form)"""
+    import mokapot
+
+    return [[nm, sorted(mokapot.digest(seq, enzyme_regex=setting["enzyme"], missed_cleavages=setting["mc"],
+                                       clip_nterm_methionine=setting["clip"], min_length=setting["minl"],
+                                       max_length=setting["maxl"], semi=setting["semi"]))]
+            for nm, seq in case["entries"]]
+
+
+def fresh_process_result(case):
+    """the same single call in a fresh interpreter (order-free form), or None"""
+    try:
+        return run_hashseed([case], os.environ.get("PYTHONHASHSEED", "0"))[0]
+    except Exception:  # noqa: BLE001
+        return None
+
+
+def eval_callseq(chk, cases, confirm=True):
+    """every read_fasta call of every sequence against the Lean model run from the sequences (`groupseq`: its
+    digest does not live in the Python process, so no earlier call can have touched it) and against the
+    clauses restated on the Lean peptide sets"""
+    logging.disable(logging.CRITICAL)
+    lines = []
+    for c in cases:
+        for key in ("digest", "digest_b"):
+            lines.append(seq_request(dict(c, digest=c[key])))
+    resp = common.driver_batch(lines)
+    for k, c in enumerate(cases):
+        try:
+            models = dict(A=parse_model(resp[2 * k]), B=parse_model(resp[2 * k + 1]))
+        except Exception as e:
+            raise RuntimeError(f"cannot parse driver answer: {e}")
+        settings = dict(A=c["digest"], B=c["digest_b"])
+        chk.count("callseq_option", c["option"])
+        chk.count("callseq_pattern", c["pattern"])
+        if any(seq.startswith("M") for _, seq in c["entries"]):
+            chk.count("callseq_M_initial_sequences")
+        done = []
+        first = {}
+        for pos, (form, which) in enumerate(callseq_calls(c)):
+            cs = dict(c, digest=settings[which], call=c["forms"][pos % len(c["forms"])])
+            mseq = models[which]
+            done.append(form + ":" + which)
+            chk.count("callseq_calls", form)
+            if form == "digest":
+                got = impl_digest_all(c, settings[which])
+                if isinstance(mseq, dict) and [(nm, frozenset(ps)) for nm, ps in got] != mseq["pepsets"]:
+                    chk.corr_break("digest-oracle", dict(case=c, calls=done, mokapot_digest=got,
+                                                         lean_digest=[[nm, sorted(ps)] for nm, ps in mseq["pepsets"]],
+                                                         note="mokapot.digest after earlier calls in this process"))
+                continue
+            raw = impl_read(cs, c["entries"], tag="q")
+            chk.case(None, ("callseq", c["option"], c["pattern"], struct_key(c, [[nm, sorted(ps)] for nm, ps in mseq["pepsets"]]))
+                     if isinstance(mseq, dict) and len(mseq["groups"]) >= 1 and pos > 0 else None)
+            if raw[0] == "exc":
+                if mseq is None and raw[1] == "ValueError":
+                    chk.reject("only-decoy-proteins")
+                    continue
+                chk.spec_violation("call-sequence:exception:" + raw[1], dict(
+                    case=c, calls=done, error=raw[2], clause="read_fasta raised on a well-formed FASTA"))
+                break
+            if mseq is None or mseq == "keyerror":
+                chk.corr_break("groupseq", dict(case=c, calls=done, impl="ok", model=f"reject:{mseq}"))
+                continue
+            ci = canon_impl(raw)
+            pepsets = [[nm, sorted(ps)] for nm, ps in mseq["pepsets"]]
+            clause = clause_check(cs, pepsets, ci)
+            if clause is None and which in first and first[which] != raw[1:5]:
+                clause = "same-call-different-result"
+            first.setdefault(which, raw[1:5])
+            if clause is not None:
+                # is it the history?  the same single call in a fresh interpreter
+                nviol = sum(1 for sg, _ in chk.spec_violations if sg.startswith("call-sequence:"))
+                if nviol >= 8:
+                    return  # enough evidence; every one costs time
+                fresh = fresh_process_result(cs) if confirm and nviol < 2 else None
+                here = json.loads(json.dumps(jsonable_canon(ci)))
+                hist = fresh is not None and "exc" not in fresh and {k: fresh[k] for k in here} != here
+                chk.spec_violation(
+                    "call-sequence:result-depends-on-earlier-calls" if hist else "call-sequence:" + clause,
+                    dict(case=c, calls=done, violated_clause=clause, setting=settings[which], pepsets=pepsets,
+                         impl=show(ci), fresh_process=fresh, expected=show(mseq),
+                         clause="the grouping returned by this read_fasta call is not the maximal-subset grouping "
+                                "of the proteins digested with the options of THIS call"
+                                + (" (a fresh interpreter returns the right one)" if hist else "")))
+                break
+            if (ci["unique"], ci["shared"], ci["pmap"], ci["has_decoys"]) != (
+                    mseq["unique"], mseq["shared"], mseq["pmap"], mseq["has_decoys"]):
+                chk.corr_break("groupseq", dict(case=c, calls=done, impl=show(ci), model=show(mseq)))
+
+
+def builtin_callseqs():
+    fmt = dict(wrap=0, desc=False, nfiles=1, trail=True)
+    dg = dict(enzyme="[KR]", mc=0, clip=False, minl=6, maxl=50, semi=False)
+    forms = [dict(enz="str", files="str", omit=False)]
+    ent = [["sp|P1|one", "MAAAAAAKCCCCCCKDDDDDDK"], ["sp|P2|two", "AAAAAAK"], ["sp|P3|sub", "CCCCCCKDDDDDDK"],
+           ["decoy_sp|P1|one", "MGGGGGGK"], ["decoy_sp|P2|two", "GGGGGGK"]]
+    base = dict(kind="callseq", entries=ent, prefix="decoy_", digest=dg, digest_b=dict(dg, clip=True), option="clip",
+                fmt=fmt, pat="corpus", forms=forms)
+    return [dict(base, pattern=p) for p in ("AB", "BA", "dA.B", "dB.A")]
+
+
+# ----------------------------------------------------------------------------
 # exhaustive small scope
 # ----------------------------------------------------------------------------
 def exhaustive_cases(scopes, with_decoys=True):
@@ -1113,6 +1450,15 @@ def builtin_cases():
              note="a peptide shared by three groups whose sorted name order differs from the insertion order"),
         case([["P", "MAAAKAACK"], ["Q", "AAAKAACK"]], digest=dict(dg, mc=1, clip=True, semi=True, minl=4),
              note="clip + semi + missed cleavage together"),
+        # third pass
+        case([["A", "AAAAAAKCCCCCCK"], ["B", "CCCCCCK"], ["A", "DDDDDDK"]], digest=dict(dg, minl=6),
+             note="a repeated identifier with different sequences: outside the quantifier (tallied), model = code"),
+        case([["P", "MAAAKAACK"], ["Q", "AAAKAACK"]], digest=dict(dg, clip=False),
+             note="an M-initial protein read without clipping"),
+        case([["P", "AAAKAACK"], ["decoy_P", "AAAK"], ["Q", "AACK"]], fmt=dict(fmt, eol="crlf", blank=True, desc=True, blank_seed=5),
+             note="CRLF file with blank lines and a description that contains '>'"),
+        case([["P", "AAAKAACK"], ["decoy_P", "AAAK"], ["Q", "AACK"]], fmt=dict(fmt, eol="cr", nfiles=2, trail=False),
+             note="two CR-only files without final line end"),
     ]
 
 
@@ -1124,6 +1470,23 @@ def minimise(chk):
     if "case" not in info:
         return
     c0 = info["case"]
+    if c0.get("kind") == "callseq":
+        def fails_s(entries):
+            sub = common.Check(chk.prop, chk.tier, chk.seed)
+            try:
+                eval_callseq(sub, [dict(c0, entries=entries)], confirm=False)
+            except Exception:
+                return False
+            return any(s.startswith("call-sequence:") for s, _ in sub.spec_violations)
+
+        if fails_s(c0["entries"]):
+            small = common.shrink_list(c0["entries"], fails_s)
+            sub = common.Check(chk.prop, chk.tier, chk.seed)
+            eval_callseq(sub, [dict(c0, entries=small)])
+            hit = [i for sg, i in sub.spec_violations if sg == sig]
+            if hit:
+                chk.spec_violations[0] = (sig, dict(hit[0], shrunk_from_entries=len(c0["entries"])))
+        return
     if c0.get("kind") == "direct":
         def restrict(prots):
             names = {nm for nm, _ in prots}
@@ -1172,6 +1535,8 @@ def search(chk):
     cases = [gen_case(rng, big=True) for _ in range(3000)]
     eval_cases(chk, cases, perms=3)
     if not chk.spec_violations:
+        eval_callseq(chk, builtin_callseqs() + [gen_callseq(rng) for _ in range(3000)])
+    if not chk.spec_violations:
         eval_direct(chk, [gen_direct(rng, big=True) for _ in range(4000)])
     if not chk.spec_violations:
         direct_exhaustive(chk, DSCOPE_THOROUGH, orders=4)
@@ -1185,7 +1550,8 @@ def search(chk):
 def main(chk, args):
     build = common.build_and_audit("C16", extra_targets=["MokapotVerif.Mutants.Grouping",
                                                          "MokapotVerif.Mutants.GroupingExt",
-                                                         "MokapotVerif.Mutants.GroupingStr"])
+                                                         "MokapotVerif.Mutants.GroupingStr",
+                                                         "MokapotVerif.Mutants.GroupingText"])
     if not build.driver_ok:
         chk.finish(build, RULE)
     rng = chk.rng
@@ -1196,6 +1562,10 @@ def main(chk, args):
         cases += [gen_case(rng, big=(i % 4 == 0), allow_dups=(i % 25 == 7), repeat=(i % 25 == 17)) for i in range(n)]
         for i in range(0, len(cases), 3000):
             eval_cases(chk, cases[i:i + 3000], perms=2 if quick else 3)
+        # file contents outside the FASTA description: reader of the model vs the real reader (correspondence)
+        eval_text_corners(chk, TEXT_CORNERS + [gen_text_corner(rng) for _ in range(400 if quick else 4000)])
+        # sequences of calls in this one process that differ in a single digest option (both orders)
+        eval_callseq(chk, builtin_callseqs() + [gen_callseq(rng) for _ in range(500 if quick else 5000)])
         wf_cases = [c for c in cases if len({e[0] for e in c["entries"]}) == len(c["entries"])]
         hash_seed_runs(chk, wf_cases[:400] if quick else wf_cases[:4000], [1, 2] if quick else [1, 2, 3, 4])
         exhaustive(chk, SCOPE_QUICK if quick else SCOPE_THOROUGH, perms=1 if quick else 3)
@@ -1222,6 +1592,10 @@ def main(chk, args):
         "protein names contain no blank (guaranteed by _parse_protein), so ', '-joined group names split back "
         "uniquely (C16_group_name_injective) and '; ' never occurs inside a group name; the raw strings are "
         "compared verbatim with the model's rendering (op grender) besides",
+        "no module-level state between calls: proved for the model (C16_call_sequence_history_free), checked on the "
+        "real code by sequences of calls in one process (both orders of two settings that differ in one digest option)",
+        "file contents inside the laid-out FASTA description are covered by C16_from_fasta_text_meets_spec; corner-case "
+        "files (no leading '>', empty files, form feeds …) are compared with the model only (correspondence)",
         "a protein listed several times with the same peptide set is inside the property "
         "(C16_repeated_entries_meet_spec); the same name with different peptide sets is outside (tallied)",
     ]
@@ -1238,6 +1612,10 @@ def replay(chk, path):
     try:
         if info["case"].get("kind") == "direct":
             eval_direct(chk, [info["case"]])
+        elif info["case"].get("kind") == "callseq":
+            eval_callseq(chk, [info["case"]])
+        elif info["case"].get("kind") == "textcorner":
+            eval_text_corners(chk, [info["case"]["texts"]])
         else:
             eval_cases(chk, [info["case"]], perms=4)
         if info.get("signature", "").startswith("hash-dependence"):
